@@ -289,6 +289,9 @@ def one_run(check, seed, i, cfg):
         rm, rs, d = compare(ms, sc)
         res["n"] += 1
         res["steps"] += rm["steps"]
+        endt = [ev[1] for ev in rm["trace"] if ev[0] == "end"]
+        if endt:
+            P["simulated_time_ms_asyncio"] = P.get("simulated_time_ms_asyncio", 0) + int(endt[-1] * 1000)
         flat = json.dumps(rm["trace"])
         nact = sum(1 for ev in rm["trace"] if ev[0] == "action" and not ev[3])
         if nact:
@@ -310,7 +313,6 @@ def one_run(check, seed, i, cfg):
             res["nontrivial_digests"].append(core.digest([ms["name"], sc]))
         if d is not None and "violation" not in res:
             res["violation"] = {"klass": "asyncio-trace-differs-from-cpython", "detail": d, "scenario": sc, "module": ms["name"], "src": ms["src"], "family": "E3b"}
-    res["faults"]["simulated_seconds"] = 0
     if i % 40 == 0:
         res["sample"] = {"module": ms["name"], "scenario_example": sc, "trace_tail": rm["trace"][-6:]}
     return res
